@@ -35,7 +35,7 @@ ASSUMPTIONS = [
     'two breaking rewrites in a row give no expectation for x == z (they may cancel)',
 ]
 BUDGET = {'quick': 16 * 500, 'thorough': 16 * 12000}
-FLOORS = {'alias_only_pair': 0.03, 'mixed_key_dict': 0.029, 'explicit_default': 0.05, 'r1_intern_redirect': 0.013}
+FLOORS = {'alias_only_pair': 0.03, 'mixed_key_dict': 0.012, 'explicit_default': 0.05, 'r1_intern_redirect': 0.013}
 
 PRESERVING = ['deepcopy', 'pickle', 'rebuild', 'explicit_default', 'dict_reorder', 'history',
               'intern_redirect']
@@ -80,7 +80,9 @@ def strategy_(draw, tier):
             'r2': [draw(st.sampled_from(PRESERVING)), draw(st.integers(0, 50))]}
   recipe = draw(dags.dag(
       max_nodes=10, min_nodes=3, leaf_profile='nan_free', bts=('Config', 'Config', 'Partial'),
-      kinds=['B', 'B', 'B', 'list', 'tuple', 'dict', 'mdict', 'mdict', 'nt', 'ltuple', 'ntuple', 'set', 'Bmut1'],
+      kinds=['B', 'B', 'B', 'list', 'tuple', 'dict', 'mdict', 'mdict', 'nt', 'ltuple', 'ntuple', 'set', 'Bmut1',
+             # further node kinds of the shared generator that this check's oracle handles (each once)
+             'TV', 'ddict', 'kdict', 'fset', 'Bpos', 'Bann', 'Bmutnest', 'Bpo', 'Bpo3', 'Bdc', 'Bempty', 'AFP', 'odict', 'dcinst'],
       p_alias=0.75,
       fns=['things:f2', 'things:h1', 'things:Base', 'things:Other', 'things:LeafCls', 'things:kwdef', 'things:kwf'],
       root_kinds=['B'], uid=draw(st.booleans())))
